@@ -137,7 +137,7 @@ func (s *Sched) settle(t *Task) {
 	}
 	// Race-detector mode: quiescence is read from the goroutine states in a
 	// runtime stack dump (no happens-before edge is created by looking).
-	for i := 0; i < 400; i++ {
+	for i := 0; i < 200000; i++ {
 		if bubbleQuiescent() {
 			if t != nil {
 				if p, d, _ := t.state(); !p && !d {
